@@ -15,6 +15,12 @@ such record and ANY map `T` on node arrays (with its companion `Tp` on points):
   two presentations, and `allIntersections P G (T n1) (T n2) = allIntersections P G n1 n2`
   (same parameters, same flag, same error), for every `G` (in particular every fuel `G.maxRounds`).
 
+GENERALISATION (`PrimsRelated`): two records of primitives `P` (original data) and `P'` (transformed data) with two
+constant records `G`, `G'` that may differ in the ABSOLUTE linearisation threshold `errValSq` only; the squared
+linearisation errors stored in the candidates are related by a map `E` (`E e = 0 ↔ e = 0`, and the threshold decision
+`E e < G'.errValSq ↔ e < G.errValSq`).  `PrimsInvariant` is the special case `P' = P`, `G' = G`, `E = id`
+(`PrimsInvariant.related`); `allIntersections_related` is the general theorem, `allIntersections_invariant` its corollary.
+
 Side conditions are carried by two predicates: `V` on node arrays (a shape that the node-producing
 primitives preserve: e.g. "two rows of equal length ≥ 2") and `Vp` on points (e.g. "two entries").
 No law of arithmetic is used: `K` only carries the notation classes of the model, so the theorem
@@ -73,25 +79,110 @@ structure PrimsInvariant (P : Prims K) (T : List (List K) → List (List K)) (Tp
   elevate_V : ∀ a, V a → V (elevate a)
   elevate_ncols : ∀ a, V a → ncols (elevate a) = ncols a + 1
 
+/-- `P'` (with constants `G'`) on the transformed data answers like `P` (with `G`) on the original data.
+    `E` relates the squared linearisation errors; the constant records agree except for `errValSq` -/
+structure PrimsRelated (P : Prims K) (G : GeoConsts K) (P' : Prims K) (G' : GeoConsts K)
+    (T : List (List K) → List (List K)) (Tp : List K → List K) (E : K → K)
+    (V : List (List K) → Prop) (Vp : List K → Prop) : Prop where
+  /-- the constants that are not lengths are the same -/
+  maxRounds_eq : G'.maxRounds = G.maxRounds
+  maxCandidates_eq : G'.maxCandidates = G.maxCandidates
+  zeroThr_eq : G'.zeroThr = G.zeroThr
+  ratioSq_eq : G'.ratioSq = G.ratioSq
+  minWidth_eq : G'.minWidth = G.minWidth
+  unhandled_eq : G'.unhandledLinesRaise = G.unhandledLinesRaise
+  /-- primitives on parameters -/
+  wiggle_eq : ∀ v, P'.wiggle v = P.wiggle v
+  inUnit_eq : ∀ v, P'.inUnit v = P.inUnit v
+  /-- the error map keeps "exactly linear" -/
+  errZero : ∀ e, E e = 0 ↔ e = 0
+  firstNode_T : ∀ a, V a → firstNode (T a) = Tp (firstNode a)
+  lastNode_T : ∀ a, V a → lastNode (T a) = Tp (lastNode a)
+  firstNode_V : ∀ a, V a → Vp (firstNode a)
+  lastNode_V : ∀ a, V a → Vp (lastNode a)
+  ncols_T : ∀ a, V a → ncols (T a) = ncols a
+  bboxIntersect : ∀ a b, V a → V b → P'.bboxIntersect (T a) (T b) = P.bboxIntersect a b
+  bboxLineIntersect : ∀ a p q, V a → Vp p → Vp q →
+    P'.bboxLineIntersect (T a) (Tp p) (Tp q) = P.bboxLineIntersect a p q
+  /-- the linearisation error is mapped by `E`, the decision against the threshold is the same -/
+  linErrSq : ∀ a, V a → P'.linErrSq (T a) = E (P.linErrSq a)
+  errLt : ∀ a, V a → (E (P.linErrSq a) < G'.errValSq ↔ P.linErrSq a < G.errValSq)
+  segmentIntersection : ∀ p q r s, Vp p → Vp q → Vp r → Vp s →
+    P'.segmentIntersection (Tp p) (Tp q) (Tp r) (Tp s) = P.segmentIntersection p q r s
+  parallelLines : ∀ p q r s, Vp p → Vp q → Vp r → Vp s →
+    P'.parallelLines (Tp p) (Tp q) (Tp r) (Tp s) = P.parallelLines p q r s
+  hullCollide : ∀ a b, V a → V b → P'.hullCollide (T a) (T b) = P.hullCollide a b
+  vectorClosePt : ∀ p q, Vp p → Vp q → P'.vectorClose (Tp p) (Tp q) = P.vectorClose p q
+  vectorCloseFlat : ∀ a b, V a → V b → ncols a = ncols b →
+    P'.vectorClose (flatten (T a)) (flatten (T b)) = P.vectorClose (flatten a) (flatten b)
+  fullNewton : ∀ s a t b, V a → V b → P'.fullNewton s (T a) t (T b) = P.fullNewton s a t b
+  locate : ∀ a p, V a → Vp p → P'.locate (T a) (Tp p) = P.locate a p
+  subdivide_T : ∀ a, V a → P'.subdivide (T a) = (T (P.subdivide a).1, T (P.subdivide a).2)
+  subdivide_V : ∀ a, V a → V (P.subdivide a).1 ∧ V (P.subdivide a).2
+  specialize_T : ∀ a s t, V a → P'.specialize (T a) s t = T (P.specialize a s t)
+  specialize_V : ∀ a s t, V a → V (P.specialize a s t)
+  specialize_ncols : ∀ a s t, V a → ncols (P.specialize a s t) = ncols a
+  elevate_T : ∀ a, V a → elevate (T a) = T (elevate a)
+  elevate_V : ∀ a, V a → V (elevate a)
+  elevate_ncols : ∀ a, V a → ncols (elevate a) = ncols a + 1
+
+/-- the one-record case -/
+theorem PrimsInvariant.related {P : Prims K} {T : List (List K) → List (List K)} {Tp : List K → List K}
+    {V : List (List K) → Prop} {Vp : List K → Prop} (h : PrimsInvariant P T Tp V Vp) (G : GeoConsts K) :
+    PrimsRelated P G P G T Tp id V Vp where
+  maxRounds_eq := rfl
+  maxCandidates_eq := rfl
+  zeroThr_eq := rfl
+  ratioSq_eq := rfl
+  minWidth_eq := rfl
+  unhandled_eq := rfl
+  wiggle_eq := fun _ => rfl
+  inUnit_eq := fun _ => rfl
+  errZero := fun _ => Iff.rfl
+  firstNode_T := h.firstNode_T
+  lastNode_T := h.lastNode_T
+  firstNode_V := h.firstNode_V
+  lastNode_V := h.lastNode_V
+  ncols_T := h.ncols_T
+  bboxIntersect := h.bboxIntersect
+  bboxLineIntersect := h.bboxLineIntersect
+  linErrSq := h.linErrSq
+  errLt := fun _ _ => Iff.rfl
+  segmentIntersection := h.segmentIntersection
+  parallelLines := h.parallelLines
+  hullCollide := h.hullCollide
+  vectorClosePt := h.vectorClosePt
+  vectorCloseFlat := h.vectorCloseFlat
+  fullNewton := h.fullNewton
+  locate := h.locate
+  subdivide_T := h.subdivide_T
+  subdivide_V := h.subdivide_V
+  specialize_T := h.specialize_T
+  specialize_V := h.specialize_V
+  specialize_ncols := h.specialize_ncols
+  elevate_T := h.elevate_T
+  elevate_V := h.elevate_V
+  elevate_ncols := h.elevate_ncols
+
 /-! ## the simulation relation (functional form) -/
 
 /-- the same sub-curve in the other presentation: nodes mapped, parameter interval kept -/
 def mapSub (T : List (List K) → List (List K)) (c : SubCurve K) : SubCurve K :=
   { nodes := T c.nodes, start := c.start, stop := c.stop }
 
-/-- the same candidate in the other presentation: same kind, same error -/
-def mapCand (T : List (List K) → List (List K)) : Cand K → Cand K
+/-- the same candidate in the other presentation: same kind, error mapped by `E` -/
+def mapCand (T : List (List K) → List (List K)) (E : K → K) : Cand K → Cand K
   | .curve c => .curve (mapSub T c)
-  | .lin c e => .lin (mapSub T c) e
+  | .lin c e => .lin (mapSub T c) (E e)
 
-def mapPair (T : List (List K) → List (List K)) (p : Cand K × Cand K) : Cand K × Cand K :=
-  (mapCand T p.1, mapCand T p.2)
+def mapPair (T : List (List K) → List (List K)) (E : K → K) (p : Cand K × Cand K) : Cand K × Cand K :=
+  (mapCand T E p.1, mapCand T E p.2)
 
 /-- a round result in the other presentation: same error / same accumulated parameters -/
-def mapRes (T : List (List K) → List (List K)) :
+def mapRes (T : List (List K) → List (List K)) (E : K → K) :
     Except Err (List (Cand K × Cand K) × List (K × K)) → Except Err (List (Cand K × Cand K) × List (K × K))
   | .error e => .error e
-  | .ok (l, acc) => .ok (l.map (mapPair T), acc)
+  | .ok (l, acc) => .ok (l.map (mapPair T E), acc)
 
 /-- shape condition on a candidate / a pair / a round result -/
 def CandV (V : List (List K) → Prop) (c : Cand K) : Prop := V c.sub.nodes
@@ -102,21 +193,16 @@ def ResV (V : List (List K) → Prop) : Except Err (List (Cand K × Cand K) × L
   | .error _ => True
   | .ok (l, _) => ∀ p ∈ l, PairV V p
 
-@[simp] theorem mapCand_sub (T : List (List K) → List (List K)) (c : Cand K) :
-    (mapCand T c).sub = mapSub T c.sub := by cases c <;> rfl
+@[simp] theorem mapCand_sub (T : List (List K) → List (List K)) (E : K → K) (c : Cand K) :
+    (mapCand T E c).sub = mapSub T c.sub := by cases c <;> rfl
 
-@[simp] theorem mapCand_isLin (T : List (List K) → List (List K)) (c : Cand K) :
-    (mapCand T c).isLin = c.isLin := by cases c <;> rfl
-
-theorem mapRes_ite (T : List (List K) → List (List K)) (c : Prop) [Decidable c]
-    (a b : Except Err (List (Cand K × Cand K) × List (K × K))) :
-    mapRes T (if c then a else b) = if c then mapRes T a else mapRes T b := by
-  split <;> rfl
+@[simp] theorem mapCand_isLin (T : List (List K) → List (List K)) (E : K → K) (c : Cand K) :
+    (mapCand T E c).isLin = c.isLin := by cases c <;> rfl
 
 section Generic
 
-variable {P : Prims K} {T : List (List K) → List (List K)} {Tp : List K → List K}
-  {V : List (List K) → Prop} {Vp : List K → Prop}
+variable {P P' : Prims K} {G G' : GeoConsts K} {T : List (List K) → List (List K)} {Tp : List K → List K}
+  {E : K → K} {V : List (List K) → Prop} {Vp : List K → Prop}
 
 /-! ## `Linearization.from_shape`, `subdivide` -/
 
@@ -128,19 +214,22 @@ theorem fromShape_sub_nodes (P : Prims K) (G : GeoConsts K) (c : Cand K) :
     simp only [fromShape]
     split <;> rfl
 
-theorem fromShape_V (G : GeoConsts K) (c : Cand K) (hc : CandV V c) : CandV V (fromShape P G c) := by
+theorem fromShape_V (P : Prims K) (G : GeoConsts K) (c : Cand K) (hc : CandV V c) : CandV V (fromShape P G c) := by
   unfold CandV; rw [fromShape_sub_nodes]; exact hc
 
-theorem fromShape_map (h : PrimsInvariant P T Tp V Vp) (G : GeoConsts K) (c : Cand K) (hc : CandV V c) :
-    fromShape P G (mapCand T c) = mapCand T (fromShape P G c) := by
+theorem fromShape_map (h : PrimsRelated P G P' G' T Tp E V Vp) (c : Cand K) (hc : CandV V c) :
+    fromShape P' G' (mapCand T E c) = mapCand T E (fromShape P G c) := by
   cases c with
   | lin c e => rfl
   | curve c =>
+    have hc : V c.nodes := hc
     simp only [mapCand, fromShape, mapSub]
     rw [h.linErrSq c.nodes hc]
-    split <;> rfl
+    by_cases hlt : P.linErrSq c.nodes < G.errValSq
+    · rw [if_pos hlt, if_pos ((h.errLt c.nodes hc).2 hlt)]
+    · rw [if_neg hlt, if_neg (fun h' => hlt ((h.errLt c.nodes hc).1 h'))]
 
-theorem subdivideCand_V (h : PrimsInvariant P T Tp V Vp) (G : GeoConsts K) (c : Cand K) (hc : CandV V c) :
+theorem subdivideCand_V (h : PrimsRelated P G P' G' T Tp E V Vp) (c : Cand K) (hc : CandV V c) :
     ∀ d ∈ subdivideCand P G c, CandV V d := by
   cases c with
   | lin c e =>
@@ -152,50 +241,56 @@ theorem subdivideCand_V (h : PrimsInvariant P T Tp V Vp) (G : GeoConsts K) (c : 
     obtain ⟨h1, h2⟩ := h.subdivide_V c.nodes hc
     simp only [subdivideCand, List.mem_cons, List.not_mem_nil, or_false] at hd
     rcases hd with hd | hd <;> subst hd
-    · exact fromShape_V G _ h1
-    · exact fromShape_V G _ h2
+    · exact fromShape_V P G _ h1
+    · exact fromShape_V P G _ h2
 
-theorem subdivideCand_map (h : PrimsInvariant P T Tp V Vp) (G : GeoConsts K) (c : Cand K) (hc : CandV V c) :
-    subdivideCand P G (mapCand T c) = (subdivideCand P G c).map (mapCand T) := by
+theorem subdivideCand_map (h : PrimsRelated P G P' G' T Tp E V Vp) (c : Cand K) (hc : CandV V c) :
+    subdivideCand P' G' (mapCand T E c) = (subdivideCand P G c).map (mapCand T E) := by
   cases c with
   | lin c e => rfl
   | curve c =>
     obtain ⟨h1, h2⟩ := h.subdivide_V c.nodes hc
     simp only [mapCand, subdivideCand, mapSub, List.map_cons, List.map_nil]
     rw [h.subdivide_T c.nodes hc]
-    have e1 := fromShape_map h G (.curve ⟨(P.subdivide c.nodes).1, c.start, (1 / (1 + 1) : K) * (c.start + c.stop)⟩) h1
-    have e2 := fromShape_map h G (.curve ⟨(P.subdivide c.nodes).2, (1 / (1 + 1) : K) * (c.start + c.stop), c.stop⟩) h2
+    have e1 := fromShape_map h (.curve ⟨(P.subdivide c.nodes).1, c.start, (1 / (1 + 1) : K) * (c.start + c.stop)⟩) h1
+    have e2 := fromShape_map h (.curve ⟨(P.subdivide c.nodes).2, (1 / (1 + 1) : K) * (c.start + c.stop), c.stop⟩) h2
     simp only [mapCand, mapSub] at e1 e2
     rw [e1, e2]
 
-/-! ## `endpoint_check`, `tangent_bbox_intersection` -/
+/-! ## `add_intersection`, `endpoint_check`, `tangent_bbox_intersection` -/
 
-theorem endpointCheck_map (h : PrimsInvariant P T Tp V Vp) (G : GeoConsts K) (first second : SubCurve K)
+theorem addIntersection_geo (h : PrimsRelated P G P' G' T Tp E V Vp) (s t : K) (acc : List (K × K)) :
+    addIntersection G' s t acc = addIntersection G s t acc := by
+  unfold addIntersection
+  rw [h.zeroThr_eq, h.ratioSq_eq]
+
+theorem endpointCheck_map (h : PrimsRelated P G P' G' T Tp E V Vp) (first second : SubCurve K)
     (p q : List K) (hp : Vp p) (hq : Vp q) (s t : K) (acc : List (K × K)) :
-    endpointCheck P G (mapSub T first) (Tp p) s (mapSub T second) (Tp q) t acc
+    endpointCheck P' G' (mapSub T first) (Tp p) s (mapSub T second) (Tp q) t acc
       = endpointCheck P G first p s second q t acc := by
   unfold endpointCheck
   rw [h.vectorClosePt p q hp hq]
+  simp only [addIntersection_geo h]
   rfl
 
-theorem tangentBbox_map (h : PrimsInvariant P T Tp V Vp) (G : GeoConsts K) (first second : SubCurve K)
+theorem tangentBbox_map (h : PrimsRelated P G P' G' T Tp E V Vp) (first second : SubCurve K)
     (h1 : V first.nodes) (h2 : V second.nodes) (acc : List (K × K)) :
-    tangentBbox P G (mapSub T first) (mapSub T second) acc = tangentBbox P G first second acc := by
+    tangentBbox P' G' (mapSub T first) (mapSub T second) acc = tangentBbox P G first second acc := by
   unfold tangentBbox
   have ef : (mapSub T first).nodes = T first.nodes := rfl
   have es : (mapSub T second).nodes = T second.nodes := rfl
   simp only [ef, es, h.firstNode_T _ h1, h.lastNode_T _ h1, h.firstNode_T _ h2, h.lastNode_T _ h2]
-  rw [endpointCheck_map h G first second _ _ (h.firstNode_V _ h1) (h.firstNode_V _ h2),
-    endpointCheck_map h G first second _ _ (h.firstNode_V _ h1) (h.lastNode_V _ h2),
-    endpointCheck_map h G first second _ _ (h.lastNode_V _ h1) (h.firstNode_V _ h2),
-    endpointCheck_map h G first second _ _ (h.lastNode_V _ h1) (h.lastNode_V _ h2)]
+  rw [endpointCheck_map h first second _ _ (h.firstNode_V _ h1) (h.firstNode_V _ h2),
+    endpointCheck_map h first second _ _ (h.firstNode_V _ h1) (h.lastNode_V _ h2),
+    endpointCheck_map h first second _ _ (h.lastNode_V _ h1) (h.firstNode_V _ h2),
+    endpointCheck_map h first second _ _ (h.lastNode_V _ h1) (h.lastNode_V _ h2)]
 
 /-! ## `from_linearized` -/
 
-theorem fromLinearized_map (h : PrimsInvariant P T Tp V Vp) (G : GeoConsts K) (o1 o2 : List (List K))
+theorem fromLinearized_map (h : PrimsRelated P G P' G' T Tp E V Vp) (o1 o2 : List (List K))
     (ho1 : V o1) (ho2 : V o2) (c1 : SubCurve K) (e1 : K) (c2 : SubCurve K) (e2 : K)
     (h1 : V c1.nodes) (h2 : V c2.nodes) (acc : List (K × K)) :
-    fromLinearized P G (T o1) (T o2) (mapSub T c1) e1 (mapSub T c2) e2 acc
+    fromLinearized P' G' (T o1) (T o2) (mapSub T c1) (E e1) (mapSub T c2) (E e2) acc
       = fromLinearized P G o1 o2 c1 e1 c2 e2 acc := by
   unfold fromLinearized
   have ef : (mapSub T c1).nodes = T c1.nodes := rfl
@@ -208,18 +303,19 @@ theorem fromLinearized_map (h : PrimsInvariant P T Tp V Vp) (G : GeoConsts K) (o
     h.lastNode_T _ h2,
     h.segmentIntersection _ _ _ _ (h.firstNode_V _ h1) (h.lastNode_V _ h1) (h.firstNode_V _ h2)
       (h.lastNode_V _ h2),
-    h.hullCollide _ _ h1 h2, h.fullNewton _ _ _ _ ho1 ho2]
+    h.hullCollide _ _ h1 h2, h.fullNewton _ _ _ _ ho1 ho2, h.errZero, h.unhandled_eq, h.wiggle_eq,
+    h.inUnit_eq, addIntersection_geo h]
 
 /-! ## one candidate pair -/
 
-theorem intersectPair_V (h : PrimsInvariant P T Tp V Vp) (G : GeoConsts K) (o1 o2 : List (List K))
+theorem intersectPair_V (h : PrimsRelated P G P' G' T Tp E V Vp) (o1 o2 : List (List K))
     (a b : Cand K) (ha : CandV V a) (hb : CandV V b) (acc : List (K × K)) :
     ResV V (intersectPair P G o1 o2 a b acc) := by
   have hsub : ResV V (.ok ((subdivideCand P G a).flatMap (fun x => (subdivideCand P G b).map (fun y => (x, y))), acc)) := by
     intro p hp
     simp only [List.mem_flatMap, List.mem_map] at hp
     obtain ⟨x, hx, y, hy, rfl⟩ := hp
-    exact ⟨subdivideCand_V h G a ha x hx, subdivideCand_V h G b hb y hy⟩
+    exact ⟨subdivideCand_V h a ha x hx, subdivideCand_V h b hb y hy⟩
   have hnil : ∀ acc' : List (K × K), ResV V (.ok ([], acc')) := by
     intro acc' p hp; cases hp
   unfold intersectPair
@@ -259,39 +355,39 @@ theorem intersectPair_eq (P : Prims K) (G : GeoConsts K) (o1 o2 : List (List K))
           .ok ((subdivideCand P G first).flatMap (fun a => (subdivideCand P G second).map (fun b => (a, b))), acc) := by
   cases first <;> cases second <;> rfl
 
-theorem pairBox_map (h : PrimsInvariant P T Tp V Vp) (a b : Cand K) (ha : CandV V a) (hb : CandV V b) :
-    pairBox P (mapCand T a) (mapCand T b) = pairBox P a b := by
+theorem pairBox_map (h : PrimsRelated P G P' G' T Tp E V Vp) (a b : Cand K) (ha : CandV V a) (hb : CandV V b) :
+    pairBox P' (mapCand T E a) (mapCand T E b) = pairBox P a b := by
   cases a with
   | curve c1 =>
     cases b with
     | curve c2 => exact h.bboxIntersect c1.nodes c2.nodes ha hb
     | lin c2 e2 =>
       have hb : V c2.nodes := hb
-      show P.bboxLineIntersect (T c1.nodes) (firstNode (T c2.nodes)) (lastNode (T c2.nodes)) = _
+      show P'.bboxLineIntersect (T c1.nodes) (firstNode (T c2.nodes)) (lastNode (T c2.nodes)) = _
       rw [h.firstNode_T _ hb, h.lastNode_T _ hb]
       exact h.bboxLineIntersect _ _ _ ha (h.firstNode_V _ hb) (h.lastNode_V _ hb)
   | lin c1 e1 =>
     cases b with
     | curve c2 =>
       have ha : V c1.nodes := ha
-      show P.bboxLineIntersect (T c2.nodes) (firstNode (T c1.nodes)) (lastNode (T c1.nodes)) = _
+      show P'.bboxLineIntersect (T c2.nodes) (firstNode (T c1.nodes)) (lastNode (T c1.nodes)) = _
       rw [h.firstNode_T _ ha, h.lastNode_T _ ha]
       exact h.bboxLineIntersect _ _ _ hb (h.firstNode_V _ ha) (h.lastNode_V _ ha)
     | lin c2 e2 => exact h.bboxIntersect c1.nodes c2.nodes ha hb
 
-theorem intersectPair_map (h : PrimsInvariant P T Tp V Vp) (G : GeoConsts K) (o1 o2 : List (List K))
+theorem intersectPair_map (h : PrimsRelated P G P' G' T Tp E V Vp) (o1 o2 : List (List K))
     (ho1 : V o1) (ho2 : V o2) (a b : Cand K) (ha : CandV V a) (hb : CandV V b) (acc : List (K × K)) :
-    intersectPair P G (T o1) (T o2) (mapCand T a) (mapCand T b) acc
-      = mapRes T (intersectPair P G o1 o2 a b acc) := by
-  have hsub : (subdivideCand P G (mapCand T a)).flatMap
-        (fun x => (subdivideCand P G (mapCand T b)).map (fun y => (x, y)))
-      = ((subdivideCand P G a).flatMap (fun x => (subdivideCand P G b).map (fun y => (x, y)))).map (mapPair T) := by
-    rw [subdivideCand_map h G a ha, subdivideCand_map h G b hb, List.map_flatMap, List.flatMap_map]
+    intersectPair P' G' (T o1) (T o2) (mapCand T E a) (mapCand T E b) acc
+      = mapRes T E (intersectPair P G o1 o2 a b acc) := by
+  have hsub : (subdivideCand P' G' (mapCand T E a)).flatMap
+        (fun x => (subdivideCand P' G' (mapCand T E b)).map (fun y => (x, y)))
+      = ((subdivideCand P G a).flatMap (fun x => (subdivideCand P G b).map (fun y => (x, y)))).map (mapPair T E) := by
+    rw [subdivideCand_map h a ha, subdivideCand_map h b hb, List.map_flatMap, List.flatMap_map]
     apply List.flatMap_congr
     intro x _
     rw [List.map_map, List.map_map]
     rfl
-  have htb := tangentBbox_map h G a.sub b.sub ha hb acc
+  have htb := tangentBbox_map h a.sub b.sub ha hb acc
   rw [intersectPair_eq, intersectPair_eq, pairBox_map h a b ha hb, mapCand_isLin, mapCand_isLin,
     mapCand_sub, mapCand_sub, htb]
   by_cases hd : pairBox P a b = .disjoint
@@ -308,7 +404,7 @@ theorem intersectPair_map (h : PrimsInvariant P T Tp V Vp) (G : GeoConsts K) (o1
         | curve c2 => simp only [mapRes]; rw [hsub]; rfl
         | lin c2 e2 =>
           simp only [mapCand]
-          rw [fromLinearized_map h G o1 o2 ho1 ho2 c1 e1 c2 e2 ha hb acc]
+          rw [fromLinearized_map h o1 o2 ho1 ho2 c1 e1 c2 e2 ha hb acc]
           cases fromLinearized P G o1 o2 c1 e1 c2 e2 acc <;> rfl
 
 /-! ## `intersect_one_round`: induction over the candidate list -/
@@ -328,12 +424,12 @@ theorem intersectOneRound_eq (P : Prims K) (G : GeoConsts K) (o1 o2 : List (List
     (cands : List (Cand K × Cand K)) (acc : List (K × K)) :
     intersectOneRound P G o1 o2 cands acc = cands.foldl (roundStep P G o1 o2) (.ok ([], acc)) := rfl
 
-theorem roundStep_V (h : PrimsInvariant P T Tp V Vp) (G : GeoConsts K) (o1 o2 : List (List K))
+theorem roundStep_V (h : PrimsRelated P G P' G' T Tp E V Vp) (o1 o2 : List (List K))
     (st : Except Err (List (Cand K × Cand K) × List (K × K))) (pr : Cand K × Cand K)
     (hst : ResV V st) (hpr : PairV V pr) : ResV V (roundStep P G o1 o2 st pr) := by
   rcases st with e | ⟨next, acc⟩
   · trivial
-  · have hp := intersectPair_V h G o1 o2 pr.1 pr.2 hpr.1 hpr.2 acc
+  · have hp := intersectPair_V h o1 o2 pr.1 pr.2 hpr.1 hpr.2 acc
     unfold roundStep
     dsimp only
     rcases hip : intersectPair P G o1 o2 pr.1 pr.2 acc with e | ⟨more, acc'⟩
@@ -344,66 +440,66 @@ theorem roundStep_V (h : PrimsInvariant P T Tp V Vp) (G : GeoConsts K) (o1 o2 : 
       · exact hst p h1
       · exact hp p h1
 
-theorem roundStep_map (h : PrimsInvariant P T Tp V Vp) (G : GeoConsts K) (o1 o2 : List (List K))
+theorem roundStep_map (h : PrimsRelated P G P' G' T Tp E V Vp) (o1 o2 : List (List K))
     (ho1 : V o1) (ho2 : V o2) (st : Except Err (List (Cand K × Cand K) × List (K × K)))
     (pr : Cand K × Cand K) (hpr : PairV V pr) :
-    roundStep P G (T o1) (T o2) (mapRes T st) (mapPair T pr) = mapRes T (roundStep P G o1 o2 st pr) := by
+    roundStep P' G' (T o1) (T o2) (mapRes T E st) (mapPair T E pr) = mapRes T E (roundStep P G o1 o2 st pr) := by
   rcases st with e | ⟨next, acc⟩
   · rfl
   · unfold roundStep
     simp only [mapRes, mapPair]
-    rw [intersectPair_map h G o1 o2 ho1 ho2 pr.1 pr.2 hpr.1 hpr.2 acc]
+    rw [intersectPair_map h o1 o2 ho1 ho2 pr.1 pr.2 hpr.1 hpr.2 acc]
     rcases intersectPair P G o1 o2 pr.1 pr.2 acc with e | ⟨more, acc'⟩
     · rfl
     · simp only [mapRes, List.map_append]
 
-theorem foldl_roundStep (h : PrimsInvariant P T Tp V Vp) (G : GeoConsts K) (o1 o2 : List (List K))
+theorem foldl_roundStep (h : PrimsRelated P G P' G' T Tp E V Vp) (o1 o2 : List (List K))
     (ho1 : V o1) (ho2 : V o2) : ∀ (cands : List (Cand K × Cand K)) (st : Except Err (List (Cand K × Cand K) × List (K × K))),
       (∀ p ∈ cands, PairV V p) → ResV V st →
-      (cands.map (mapPair T)).foldl (roundStep P G (T o1) (T o2)) (mapRes T st)
-          = mapRes T (cands.foldl (roundStep P G o1 o2) st) ∧
+      (cands.map (mapPair T E)).foldl (roundStep P' G' (T o1) (T o2)) (mapRes T E st)
+          = mapRes T E (cands.foldl (roundStep P G o1 o2) st) ∧
         ResV V (cands.foldl (roundStep P G o1 o2) st)
   | [], st, _, hst => ⟨rfl, hst⟩
   | pr :: cands, st, hc, hst => by
     simp only [List.map_cons, List.foldl_cons]
-    rw [roundStep_map h G o1 o2 ho1 ho2 st pr (hc pr List.mem_cons_self)]
-    exact foldl_roundStep h G o1 o2 ho1 ho2 cands _ (fun p hp => hc p (List.mem_cons_of_mem _ hp))
-      (roundStep_V h G o1 o2 st pr hst (hc pr List.mem_cons_self))
+    rw [roundStep_map h o1 o2 ho1 ho2 st pr (hc pr List.mem_cons_self)]
+    exact foldl_roundStep h o1 o2 ho1 ho2 cands _ (fun p hp => hc p (List.mem_cons_of_mem _ hp))
+      (roundStep_V h o1 o2 st pr hst (hc pr List.mem_cons_self))
 
 /-- **one round** runs in lock step on the two presentations -/
-theorem intersectOneRound_map (h : PrimsInvariant P T Tp V Vp) (G : GeoConsts K) (o1 o2 : List (List K))
+theorem intersectOneRound_map (h : PrimsRelated P G P' G' T Tp E V Vp) (o1 o2 : List (List K))
     (ho1 : V o1) (ho2 : V o2) (cands : List (Cand K × Cand K)) (hc : ∀ p ∈ cands, PairV V p)
     (acc : List (K × K)) :
-    intersectOneRound P G (T o1) (T o2) (cands.map (mapPair T)) acc
-      = mapRes T (intersectOneRound P G o1 o2 cands acc) := by
+    intersectOneRound P' G' (T o1) (T o2) (cands.map (mapPair T E)) acc
+      = mapRes T E (intersectOneRound P G o1 o2 cands acc) := by
   rw [intersectOneRound_eq, intersectOneRound_eq]
-  exact (foldl_roundStep h G o1 o2 ho1 ho2 cands (.ok ([], acc)) hc (by intro p hp; cases hp)).1
+  exact (foldl_roundStep h o1 o2 ho1 ho2 cands (.ok ([], acc)) hc (by intro p hp; cases hp)).1
 
-theorem intersectOneRound_V (h : PrimsInvariant P T Tp V Vp) (G : GeoConsts K) (o1 o2 : List (List K))
+theorem intersectOneRound_V (h : PrimsRelated P G P' G' T Tp E V Vp) (o1 o2 : List (List K))
     (ho1 : V o1) (ho2 : V o2) (cands : List (Cand K × Cand K)) (hc : ∀ p ∈ cands, PairV V p)
     (acc : List (K × K)) : ResV V (intersectOneRound P G o1 o2 cands acc) := by
   rw [intersectOneRound_eq]
-  exact (foldl_roundStep h G o1 o2 ho1 ho2 cands (.ok ([], acc)) hc (by intro p hp; cases hp)).2
+  exact (foldl_roundStep h o1 o2 ho1 ho2 cands (.ok ([], acc)) hc (by intro p hp; cases hp)).2
 
 /-! ## `prune_candidates` -/
 
-theorem pruneCandidates_map (h : PrimsInvariant P T Tp V Vp) :
+theorem pruneCandidates_map (h : PrimsRelated P G P' G' T Tp E V Vp) :
     ∀ (cands : List (Cand K × Cand K)), (∀ p ∈ cands, PairV V p) →
-      pruneCandidates P (cands.map (mapPair T)) = (pruneCandidates P cands).map (mapPair T)
+      pruneCandidates P' (cands.map (mapPair T E)) = (pruneCandidates P cands).map (mapPair T E)
   | [], _ => rfl
   | pr :: cands, hc => by
     have ih := pruneCandidates_map h cands (fun p hp => hc p (List.mem_cons_of_mem _ hp))
     have hpr := hc pr List.mem_cons_self
     unfold pruneCandidates at ih ⊢
     rw [List.map_cons, List.filter_cons, List.filter_cons, ih]
-    have e : P.hullCollide (mapPair T pr).1.sub.nodes (mapPair T pr).2.sub.nodes
+    have e : P'.hullCollide (mapPair T E pr).1.sub.nodes (mapPair T E pr).2.sub.nodes
         = P.hullCollide pr.1.sub.nodes pr.2.sub.nodes := by
       simp only [mapPair, mapCand_sub]
       exact h.hullCollide _ _ hpr.1 hpr.2
     rw [e]
     split <;> rfl
 
-theorem pruneCandidates_V (cands : List (Cand K × Cand K)) (hc : ∀ p ∈ cands, PairV V p) :
+theorem pruneCandidates_V (P : Prims K) (cands : List (Cand K × Cand K)) (hc : ∀ p ∈ cands, PairV V p) :
     ∀ p ∈ pruneCandidates P cands, PairV V p := by
   intro p hp
   unfold pruneCandidates at hp
@@ -411,7 +507,7 @@ theorem pruneCandidates_V (cands : List (Cand K × Cand K)) (hc : ∀ p ∈ cand
 
 /-! ## `make_same_degree`, `coincident_parameters` -/
 
-theorem iter_elevate (h : PrimsInvariant P T Tp V Vp) : ∀ (k : ℕ) (a : List (List K)), V a →
+theorem iter_elevate (h : PrimsRelated P G P' G' T Tp E V Vp) : ∀ (k : ℕ) (a : List (List K)), V a →
     iter elevate k (T a) = T (iter elevate k a) ∧ V (iter elevate k a) ∧
       ncols (iter elevate k a) = ncols a + k
   | 0, a, ha => ⟨rfl, ha, rfl⟩
@@ -421,7 +517,7 @@ theorem iter_elevate (h : PrimsInvariant P T Tp V Vp) : ∀ (k : ℕ) (a : List 
     rw [h.elevate_T a ha, e1, e3, h.elevate_ncols a ha]
     exact ⟨rfl, e2, by omega⟩
 
-theorem makeSameDegree_map (h : PrimsInvariant P T Tp V Vp) (n1 n2 : List (List K)) (h1 : V n1) (h2 : V n2) :
+theorem makeSameDegree_map (h : PrimsRelated P G P' G' T Tp E V Vp) (n1 n2 : List (List K)) (h1 : V n1) (h2 : V n2) :
     makeSameDegree (T n1) (T n2) = (T (makeSameDegree n1 n2).1, T (makeSameDegree n1 n2).2) ∧
       V (makeSameDegree n1 n2).1 ∧ V (makeSameDegree n1 n2).2 ∧
       ncols (makeSameDegree n1 n2).1 = ncols (makeSameDegree n1 n2).2 := by
@@ -433,36 +529,36 @@ theorem makeSameDegree_map (h : PrimsInvariant P T Tp V Vp) (n1 n2 : List (List 
   exact ⟨rfl, a2, b2, by rw [a3, b3]; omega⟩
 
 /-- `coincident_parameters` gives the same answer on the two presentations -/
-theorem coincidentParameters_map (h : PrimsInvariant P T Tp V Vp) (G : GeoConsts K) (n1 n2 : List (List K))
+theorem coincidentParameters_map (h : PrimsRelated P G P' G' T Tp E V Vp) (n1 n2 : List (List K))
     (h1 : V n1) (h2 : V n2) :
-    coincidentParameters P G (T n1) (T n2) = coincidentParameters P G n1 n2 := by
+    coincidentParameters P' G' (T n1) (T n2) = coincidentParameters P G n1 n2 := by
   obtain ⟨hm, hv1, hv2, hnc⟩ := makeSameDegree_map h n1 n2 h1 h2
   unfold coincidentParameters
   rw [hm]
   generalize makeSameDegree n1 n2 = mm at hm hv1 hv2 hnc ⊢
   obtain ⟨m1, m2⟩ := mm
   dsimp only at hv1 hv2 hnc ⊢
-  have s1 : ∀ s t, P.specialize (T m1) s t = T (P.specialize m1 s t) := fun s t => h.specialize_T m1 s t hv1
-  have s2 : ∀ s t, P.specialize (T m2) s t = T (P.specialize m2 s t) := fun s t => h.specialize_T m2 s t hv2
-  have v1 : ∀ s t, P.vectorClose (flatten (T (P.specialize m1 s t))) (flatten (T m2))
+  have s1 : ∀ s t, P'.specialize (T m1) s t = T (P.specialize m1 s t) := fun s t => h.specialize_T m1 s t hv1
+  have s2 : ∀ s t, P'.specialize (T m2) s t = T (P.specialize m2 s t) := fun s t => h.specialize_T m2 s t hv2
+  have v1 : ∀ s t, P'.vectorClose (flatten (T (P.specialize m1 s t))) (flatten (T m2))
       = P.vectorClose (flatten (P.specialize m1 s t)) (flatten m2) := fun s t =>
     h.vectorCloseFlat _ _ (h.specialize_V m1 s t hv1) hv2 (by rw [h.specialize_ncols m1 s t hv1, hnc])
-  have v2 : ∀ s t, P.vectorClose (flatten (T m1)) (flatten (T (P.specialize m2 s t)))
+  have v2 : ∀ s t, P'.vectorClose (flatten (T m1)) (flatten (T (P.specialize m2 s t)))
       = P.vectorClose (flatten m1) (flatten (P.specialize m2 s t)) := fun s t =>
     h.vectorCloseFlat _ _ hv1 (h.specialize_V m2 s t hv2) (by rw [h.specialize_ncols m2 s t hv2, hnc])
-  have v3 : ∀ s t s' t', P.vectorClose (flatten (T (P.specialize m1 s t))) (flatten (T (P.specialize m2 s' t')))
+  have v3 : ∀ s t s' t', P'.vectorClose (flatten (T (P.specialize m1 s t))) (flatten (T (P.specialize m2 s' t')))
       = P.vectorClose (flatten (P.specialize m1 s t)) (flatten (P.specialize m2 s' t')) := fun s t s' t' =>
     h.vectorCloseFlat _ _ (h.specialize_V m1 s t hv1) (h.specialize_V m2 s' t' hv2)
       (by rw [h.specialize_ncols m1 s t hv1, h.specialize_ncols m2 s' t' hv2, hnc])
   simp only [h.firstNode_T _ hv1, h.lastNode_T _ hv1, h.firstNode_T _ hv2, h.lastNode_T _ hv2,
     h.locate m1 _ hv1 (h.firstNode_V _ hv2), h.locate m1 _ hv1 (h.lastNode_V _ hv2),
     h.locate m2 _ hv2 (h.firstNode_V _ hv1), h.locate m2 _ hv2 (h.lastNode_V _ hv1),
-    s1, s2, v1, v2, v3]
+    s1, s2, v1, v2, v3, h.minWidth_eq]
 
 /-! ## `check_lines` -/
 
-theorem checkLines_map (h : PrimsInvariant P T Tp V Vp) (c1 c2 : Cand K) (h1 : CandV V c1) (h2 : CandV V c2) :
-    checkLines P (mapCand T c1) (mapCand T c2) = checkLines P c1 c2 := by
+theorem checkLines_map (h : PrimsRelated P G P' G' T Tp E V Vp) (c1 c2 : Cand K) (h1 : CandV V c1) (h2 : CandV V c2) :
+    checkLines P' (mapCand T E c1) (mapCand T E c2) = checkLines P c1 c2 := by
   cases c1 with
   | curve s1 => cases c2 <;> rfl
   | lin s1 e1 =>
@@ -478,7 +574,7 @@ theorem checkLines_map (h : PrimsInvariant P T Tp V Vp) (c1 c2 : Cand K) (h1 : C
         h.segmentIntersection _ _ _ _ (h.firstNode_V _ h1) (h.lastNode_V _ h1) (h.firstNode_V _ h2)
           (h.lastNode_V _ h2),
         h.parallelLines _ _ _ _ (h.firstNode_V _ h1) (h.lastNode_V _ h1) (h.firstNode_V _ h2)
-          (h.lastNode_V _ h2)]
+          (h.lastNode_V _ h2), h.errZero, h.inUnit_eq]
 
 /-! ## the round loop and `all_intersections` -/
 
@@ -503,40 +599,40 @@ theorem rounds_succ (P : Prims K) (G : GeoConsts K) (n1 n2 : List (List K)) (f :
         else if (afterPrune P G next).isEmpty then .ok (acc', false)
         else allIntersections.rounds P G n1 n2 f (afterPrune P G next) acc' := rfl
 
-theorem afterPrune_map (h : PrimsInvariant P T Tp V Vp) (G : GeoConsts K) (next : List (Cand K × Cand K))
+theorem afterPrune_map (h : PrimsRelated P G P' G' T Tp E V Vp) (next : List (Cand K × Cand K))
     (hn : ∀ p ∈ next, PairV V p) :
-    afterPrune P G (next.map (mapPair T)) = (afterPrune P G next).map (mapPair T) := by
+    afterPrune P' G' (next.map (mapPair T E)) = (afterPrune P G next).map (mapPair T E) := by
   unfold afterPrune
-  rw [List.length_map]
+  rw [List.length_map, h.maxCandidates_eq]
   split
   · exact pruneCandidates_map h next hn
   · rfl
 
-theorem afterPrune_V (G : GeoConsts K) (next : List (Cand K × Cand K)) (hn : ∀ p ∈ next, PairV V p) :
+theorem afterPrune_V (P : Prims K) (G : GeoConsts K) (next : List (Cand K × Cand K)) (hn : ∀ p ∈ next, PairV V p) :
     ∀ p ∈ afterPrune P G next, PairV V p := by
   unfold afterPrune
   split
-  · exact pruneCandidates_V next hn
+  · exact pruneCandidates_V P next hn
   · exact hn
 
 /-- **the round loop** gives the same result on the two presentations, for every fuel -/
-theorem rounds_map (h : PrimsInvariant P T Tp V Vp) (G : GeoConsts K) (n1 n2 : List (List K))
+theorem rounds_map (h : PrimsRelated P G P' G' T Tp E V Vp) (n1 n2 : List (List K))
     (h1 : V n1) (h2 : V n2) : ∀ (fuel : ℕ) (cands : List (Cand K × Cand K)) (acc : List (K × K)),
       (∀ p ∈ cands, PairV V p) →
-      allIntersections.rounds P G (T n1) (T n2) fuel (cands.map (mapPair T)) acc
+      allIntersections.rounds P' G' (T n1) (T n2) fuel (cands.map (mapPair T E)) acc
         = allIntersections.rounds P G n1 n2 fuel cands acc
   | 0, _, _, _ => rfl
   | f + 1, cands, acc, hc => by
-    rw [rounds_succ, rounds_succ, intersectOneRound_map h G n1 n2 h1 h2 cands hc acc,
-      coincidentParameters_map h G n1 n2 h1 h2]
-    have hv := intersectOneRound_V h G n1 n2 h1 h2 cands hc acc
+    rw [rounds_succ, rounds_succ, intersectOneRound_map h n1 n2 h1 h2 cands hc acc,
+      coincidentParameters_map h n1 n2 h1 h2]
+    have hv := intersectOneRound_V h n1 n2 h1 h2 cands hc acc
     rcases hio : intersectOneRound P G n1 n2 cands acc with e | ⟨next, acc'⟩
     · rfl
     · rw [hio] at hv
       have hv : ∀ p ∈ next, PairV V p := hv
       simp only [mapRes]
-      rw [afterPrune_map h G next hv, List.length_map, List.isEmpty_map,
-        rounds_map h G n1 n2 h1 h2 f _ acc' (afterPrune_V G next hv)]
+      rw [afterPrune_map h next hv, List.length_map, List.isEmpty_map, h.maxCandidates_eq,
+        rounds_map h n1 n2 h1 h2 f _ acc' (afterPrune_V P G next hv)]
 
 theorem allIntersections_eq (P : Prims K) (G : GeoConsts K) (n1 n2 : List (List K)) :
     allIntersections P G n1 n2 =
@@ -545,26 +641,33 @@ theorem allIntersections_eq (P : Prims K) (G : GeoConsts K) (n1 n2 : List (List 
       | none => allIntersections.rounds P G n1 n2 G.maxRounds
           [(fromShape P G (.curve ⟨n1, 0, 1⟩), fromShape P G (.curve ⟨n2, 0, 1⟩))] [] := rfl
 
-/-- **`all_intersections` does not see the presentation change**: same parameters, same
-    coincidence flag, same error, for every constant record `G` (every fuel `G.maxRounds`, every
-    candidate budget) -/
-theorem allIntersections_invariant (h : PrimsInvariant P T Tp V Vp) (G : GeoConsts K) (n1 n2 : List (List K))
+/-- **general form**: `P'` with `G'` on the transformed nets returns what `P` with `G` returns on the
+    original nets — same parameters, same coincidence flag, same error -/
+theorem allIntersections_related (h : PrimsRelated P G P' G' T Tp E V Vp) (n1 n2 : List (List K))
     (h1 : V n1) (h2 : V n2) :
-    allIntersections P G (T n1) (T n2) = allIntersections P G n1 n2 := by
+    allIntersections P' G' (T n1) (T n2) = allIntersections P G n1 n2 := by
   have c1 : CandV V (.curve ⟨n1, 0, 1⟩) := h1
   have c2 : CandV V (.curve ⟨n2, 0, 1⟩) := h2
-  have e1 : fromShape P G (.curve ⟨T n1, 0, 1⟩) = mapCand T (fromShape P G (.curve ⟨n1, 0, 1⟩)) :=
-    fromShape_map h G (.curve ⟨n1, 0, 1⟩) c1
-  have e2 : fromShape P G (.curve ⟨T n2, 0, 1⟩) = mapCand T (fromShape P G (.curve ⟨n2, 0, 1⟩)) :=
-    fromShape_map h G (.curve ⟨n2, 0, 1⟩) c2
-  have v1 := fromShape_V (P := P) G _ c1
-  have v2 := fromShape_V (P := P) G _ c2
-  rw [allIntersections_eq, allIntersections_eq, e1, e2, checkLines_map h _ _ v1 v2]
-  have hr := rounds_map h G n1 n2 h1 h2 G.maxRounds
+  have e1 : fromShape P' G' (.curve ⟨T n1, 0, 1⟩) = mapCand T E (fromShape P G (.curve ⟨n1, 0, 1⟩)) :=
+    fromShape_map h (.curve ⟨n1, 0, 1⟩) c1
+  have e2 : fromShape P' G' (.curve ⟨T n2, 0, 1⟩) = mapCand T E (fromShape P G (.curve ⟨n2, 0, 1⟩)) :=
+    fromShape_map h (.curve ⟨n2, 0, 1⟩) c2
+  have v1 := fromShape_V (V := V) P G _ c1
+  have v2 := fromShape_V (V := V) P G _ c2
+  rw [allIntersections_eq, allIntersections_eq, e1, e2, checkLines_map h _ _ v1 v2, h.maxRounds_eq]
+  have hr := rounds_map h n1 n2 h1 h2 G.maxRounds
     [(fromShape P G (.curve ⟨n1, 0, 1⟩), fromShape P G (.curve ⟨n2, 0, 1⟩))] []
     (by intro p hp; rw [List.mem_singleton] at hp; subst hp; exact ⟨v1, v2⟩)
   simp only [List.map_cons, List.map_nil, mapPair] at hr
   rw [hr]
+
+/-- **`all_intersections` does not see the presentation change** (one record of primitives): same
+    parameters, same coincidence flag, same error, for every constant record `G` (every fuel
+    `G.maxRounds`, every candidate budget) -/
+theorem allIntersections_invariant {P : Prims K} (h : PrimsInvariant P T Tp V Vp) (G : GeoConsts K)
+    (n1 n2 : List (List K)) (h1 : V n1) (h2 : V n2) :
+    allIntersections P G (T n1) (T n2) = allIntersections P G n1 n2 :=
+  allIntersections_related (h.related G) n1 n2 h1 h2
 
 end Generic
 
